@@ -158,6 +158,10 @@ func report(res *vk.Result, sc *vk.Scenario, w *W, it workItem, fs []finding) {
 }
 
 func TestCheck(t *testing.T) {
+	if mode := os.Getenv("VERIF_C08_CHILD"); mode != "" {
+		childMain(mode) // query-serving child of the mapsort group
+		return
+	}
 	defer vk.Cleanup()
 	res := vk.New("C08")
 	res.Rule = "every constraint tree of the bounded grammar (all trees of depth<=2 over the leaf alphabet; depth-3 trees over the planner-relevant leaves) x every SortType x limits {default,1,2,3,-1}, each run through search.Handler.Query on 9 fixed worlds (plain / with a deleted permanode / with a claim-less permanode x corpus scanned at start / corpus built incrementally / no corpus); a case is distinct when (candidate source, tree shape with leaf families, sort, limit, status, result size) differs"
